@@ -112,27 +112,38 @@ def run(R):
         writes = prefix_layout(b)
         R.floor('C06.R2', 'prefix writes', len(writes), 2)
         # (a) the configured limit: payload_len <= limit accepted, else OUT_OF_RANGE
-        lim_t = None
+        # (b) the 4 GiB bound: `len > u32::MAX as usize` or `u32::try_from(len)` failing (possibly .map_err(..)?)
+        def as_try_from(o):
+            tf = strip_refs(o[1]) if o and o[0] == 'discr' else None
+            for _ in range(3):
+                if is_call(tf) and tf[3] in ('branch', 'map_err') and tf[2]:
+                    tf = strip_refs(tf[2][0])
+            if is_call(tf, name='try_from') and 'u32' in str(tf[4].get('resolved') or tf[4].get('ga')) and is_paylen(tf[2][0]):
+                return tf
+            return None
+        prow = mirlib.path_rows(b)
+        R.floor('C06.R2', 'feasible paths', len(prow), 3)
+        lim_blocks, u32_blocks = {}, {}
         for bb in sorted(b.live_blocks()):
             lt = limit_test(b, bb, is_paylen)
             if lt is not None and is_call(strip_refs(lt['limit']), name='unwrap_or'):
-                lim_t = (bb, lt)
-        # (b) the 4 GiB bound: `len > u32::MAX as usize` or `u32::try_from(len)` failing
-        u32_t = None
-        for bb in sorted(b.live_blocks()):
-            lt = limit_test(b, bb, is_paylen)
-            if lt is not None and const_val(strip_casts(lt['limit'])) == W['u32_max']:
-                u32_t = (bb, dict(lt, how='compare'))
-            t = b.term(bb)
-            if t['k'] == 'switch':
-                o = b.origin(t['on'])
-                if o[0] == 'discr' and is_call(strip_refs(o[1]), name='try_from') and 'u32' in str(strip_refs(o[1])[4].get('resolved') or strip_refs(o[1])[4].get('ga')) and is_paylen(strip_refs(o[1])[2][0]):
-                    edges = b.switch_edges(bb)
-                    okv = [tg for tg, vals in edges.items() if vals == [0]]
-                    errv = [tg for tg, vals in edges.items() if vals != [0]]
-                    u32_t = (bb, dict(accept=okv, reject=errv, exact=True, op='u32::try_from', len=strip_refs(o[1])[2][0], limit=('const', W['u32_max'], {}), how='try_from'))
+                lim_blocks[bb] = lt
+            elif lt is not None and const_val(strip_casts(lt['limit'])) == W['u32_max']:
+                u32_blocks[bb] = dict(lt, how='compare')
+        for cons, path in prow:
+            for k, bb in enumerate(path[:-1]):
+                t = b.term(bb)
+                if t['k'] == 'switch' and bb not in u32_blocks and bb not in lim_blocks:
+                    tf = as_try_from(mirlib.simplify(b.origin_on_path(t['on'], path)))
+                    if tf is not None:
+                        edges = b.switch_edges(bb)
+                        okv = [tg for tg, vals in edges.items() if vals == [0]]
+                        errv = [tg for tg, vals in edges.items() if vals != [0]]
+                        u32_blocks[bb] = dict(accept=okv, reject=errv, exact=True, op='u32::try_from', len=tf[2][0], limit=('const', W['u32_max'], {}), how='try_from')
+        lim_t = sorted(lim_blocks.items())[-1] if lim_blocks else None
+        u32_t = sorted(u32_blocks.items())[-1] if u32_blocks else None
         R.check(lim_t is not None and u32_t is not None, 'C06.R2', 'two-tests', site(b), 'limit test: %r, u32-range test: %r' % (lim_t is not None, u32_t is not None))
-        for tt, nm, ctor in ((lim_t, 'limit', 'out_of_range'), (u32_t, 'u32', 'resource_exhausted')):
+        for tt, nm in ((lim_t, 'limit'), (u32_t, 'u32')):
             if tt is None:
                 continue
             tb, lt = tt
@@ -140,14 +151,35 @@ def run(R):
             if nm == 'limit':
                 lim = strip_refs(lt['limit'])
                 R.check(is_call(lim, name='unwrap_or') and is_loc(lim[2][0], lim_loc) and const_val(lim[2][1]) == W['default_max_send'], 'C06.R2', 'limit-source', site(b, tb), 'limit = %s' % show(lim))
-            rej = b.reach_ps(lt['reject'], removed={tb}) if lt['reject'] else set()
-            around = b.reach_ps(0, removed={tb})
-            errs = [(bb, i, ops) for bb, i, p, a, ops in mirlib.aggregates(b, 'result::Result', 'Err') if bb in rej and bb not in b.reach_ps(lt['accept'], removed={tb})]
-            R.check(len(errs) == 1, 'C06.R2', '%s:err' % nm, site(b, tb), 'Err values built only after the reject edge: %d' % len(errs))
-            for bb, i, ops in errs:
-                R.check(is_call(strip_refs(b.origin(ops[0])), pat='Status::' + ctor), 'C06.R2', '%s:%s' % (nm, ctor), site(b, bb, i), 'status = %s' % show(b.origin(ops[0]))[:100])
-            for k, d in enumerate(writes):
-                R.check(d['bb'] not in rej and d['bb'] not in around, 'C06.R2', '%s:before-prefix-write-%d' % (nm, k), site(b, d['bb']), 'prefix write (%s at offset %s) happens only after the %s test accepted' % (d['how'], d['off'], nm))
+        # outcome table by feasible path: limit refused -> Err(out_of_range), nothing written; limit accepted and u32 refused ->
+        # Err(resource_exhausted), nothing written; both accepted -> Ok(()) with both prefix writes
+        seen_out = set()
+        for cons, path in prow:
+            verdict = {}
+            for k, bb in enumerate(path[:-1]):
+                for nm, blocks in (('limit', lim_blocks), ('u32', u32_blocks)):
+                    if bb in blocks:
+                        verdict[nm] = 'acc' if path[k + 1] in blocks[bb]['accept'] else ('rej' if path[k + 1] in blocks[bb]['reject'] else '?')
+            val = mirlib.simplify(b.ret_on_path(path))
+            is_ok = val and val[0] == 'agg' and val[1].get('variant') == 'Ok'
+            cts = set() if is_ok else status_ctors_in(tonic, val)
+            wr = [d for d in writes if d['bb'] in path]
+            st = site(b, path[-1])
+            lim_v, u32_v = verdict.get('limit'), verdict.get('u32')
+            seen_out.add((lim_v, u32_v, 'ok' if is_ok else tuple(sorted(cts))))
+            if lim_v != 'acc':
+                R.check(lim_v == 'rej' and not is_ok, 'C06.R2', 'limit:err', st, 'a path that did not pass the limit test as accepted (%r) ends in an error: %r' % (lim_v, not is_ok))
+                R.check(cts == {'out_of_range'}, 'C06.R2', 'limit:out_of_range', st, 'status built by %r: %s' % (sorted(cts), show(val)[:100]))
+                for k, d in enumerate(wr):
+                    R.bad('C06.R2', 'limit:before-prefix-write-%d' % k, site(b, d['bb']), 'prefix write (%s at offset %s) on a path where the limit test did not accept' % (d['how'], d['off']))
+            elif u32_v != 'acc':
+                R.check(u32_v == 'rej' and not is_ok, 'C06.R2', 'u32:err', st, 'a path accepted by the limit but not by the 4 GiB test (%r) ends in an error: %r' % (u32_v, not is_ok))
+                R.check(cts == {'resource_exhausted'}, 'C06.R2', 'u32:resource_exhausted', st, 'status built by %r: %s' % (sorted(cts), show(val)[:100]))
+                for k, d in enumerate(wr):
+                    R.bad('C06.R2', 'u32:before-prefix-write-%d' % k, site(b, d['bb']), 'prefix write (%s at offset %s) on a path where the 4 GiB test did not accept' % (d['how'], d['off']))
+            else:
+                R.check(is_ok and len(wr) == len(writes), 'C06.R2', 'accepted:ok-with-prefix', st, 'both tests accepted: Ok(()) %r with %d of %d prefix writes' % (is_ok, len(wr), len(writes)))
+        R.check(('acc', 'acc', 'ok') in seen_out and any(o[0] == 'rej' for o in seen_out) and any(o[:2] == ('acc', 'rej') for o in seen_out), 'C06.R2', 'outcome-rows', site(b), 'outcome rows: %r' % sorted(map(str, seen_out)))
         R.check(lim_t is not None and is_paylen(lim_t[1]['len']), 'C06.R2', 'len=slice-minus-header', site(b), 'payload length = slice length - HEADER_SIZE')
 
     # ---------------------------------------------------------------- R3 no collateral loss
